@@ -638,7 +638,12 @@ fn parse_expr_unaryop(
                     (
                         ir::IntrinsicOp::PostfixIncrement,
                         expr_ir,
-                        expr_ty.0.to_rvalue(),
+                        // Output has const / lvalue removed
+                        context
+                            .module
+                            .type_registry
+                            .remove_modifier(expr_ty.0)
+                            .to_rvalue(),
                     )
                 }
                 ast::UnaryOp::PostfixDecrement => {
@@ -646,7 +651,12 @@ fn parse_expr_unaryop(
                     (
                         ir::IntrinsicOp::PostfixDecrement,
                         expr_ir,
-                        expr_ty.0.to_rvalue(),
+                        // Output has const / lvalue removed
+                        context
+                            .module
+                            .type_registry
+                            .remove_modifier(expr_ty.0)
+                            .to_rvalue(),
                     )
                 }
                 ast::UnaryOp::Plus | ast::UnaryOp::Minus => {
